@@ -157,7 +157,7 @@ Section Inv.
         { rewrite (rows_equiv_length _ _ _ HeB), Hn'', (visual_line_count_wrap bars W HW).
           fold Wn. lia. }
         repeat split.
-        * rewrite <- !app_assoc in *. rewrite <- HRsplit. rewrite <- app_assoc in Hr'. exact Hr'.
+        * rewrite HRsplit in Hr'. rewrite <- !app_assoc in Hr'. rewrite <- !app_assoc. exact Hr'.
         * rewrite wrap_app. apply rows_equiv_app; assumption.
         * exact HeB.
         * exact HlenB.
